@@ -74,7 +74,11 @@ func NewLexer(source []rune) *Lexer {
 
 // Next - return current rune, and move forward the cursor for 1 character.
 func (l *Lexer) Next() rune {
-	l.cursor += 1
+	// never move beyond the end of source, so that the cursor (and thus
+	// any error position) always stays within [0, len(Source)]
+	if l.cursor < len(l.Source) {
+		l.cursor += 1
+	}
 
 	// still no data, return EOF directly
 	return l.getChar(l.cursor)
